@@ -19,6 +19,9 @@ func c10Check(c forkh.Cfg) func(o *obs.Obs) string {
 			return tag + "/panic|" + p
 		}
 		got := o.Strs("got")
+		if c.Cancel && o.Has("cancel") {
+			return foldCancelled(tag, c, o)
+		}
 		if !obs.Equal(got, outs["got"]) {
 			return fmt.Sprintf("%s/value|fork.Fold(par=%d, %s) over %v delivered %v, the sequential fold gives %v", tag, c.Par, c.Monoid, c.Input, got, outs["got"])
 		}
@@ -99,6 +102,22 @@ func c10Scenarios(tier string) []e1lib.Scenario {
 			}
 		}
 	}
+	// a canceller runs freely (the producer then closes the input): whatever is delivered is the fold of exactly the elements the stage
+	// took from its (unbuffered) input - nothing that was taken is dropped, nothing is invented - and everything closes
+	for par := 1; par <= maxPar; par++ {
+		for k := 0; k <= 3; k++ {
+			if par*k > 6 || (tier == "quick" && par*k > 4) {
+				continue
+			}
+			input := make([]int, k)
+			for i := range input {
+				input[i] = 1 << (3 * (i + 1))
+			}
+			c := forkh.Cfg{Stage: "fold", Par: par, Input: input, InCap: 0, Monoid: "sum", Stop: -1, Cancel: true}
+			out = append(out, e1lib.Scenario{Name: forkName(c), Root: func() { forkh.Scenario(c) }, Check: c10Check(c), Bound: -1, Sample: c, Sym: true,
+				Nontrivial: func(outcomes, execs, states int) bool { return len(c.Input) >= 1 && execs > 1 }})
+		}
+	}
 	// many workers: far more workers than elements, and more than any plausible fixed buffer (8, 16, 32, 64)
 	db := 2
 	if tier == "thorough" {
@@ -153,4 +172,33 @@ func propC10() drv.Property {
 	return table("C10",
 		"one case = fork.Fold x worker count 1..3 (4 in thorough, inputs up to length 3) x every input sequence over a 3-letter alphabet of length <= 3 (4 in thorough), including empty and shorter than the worker count x monoid {sum with injective weights (the sum is the bag of elements, so exactly-once is visible), product, max, min, bitwise and, bitwise or} x input capacity {0, len}; 4, 5, 6, 9, 10, 12, 17, 33 and 65 workers over 0, 2 and 7 elements explored up to 2 (thorough 3) deviations from the default schedule (one less above 9 workers); every interleaving = every distribution of elements over workers and every arrival order of partial results at the collector; the result is deterministic by design, non-trivial = at least two elements, two workers and more than one schedule",
 		commonAssumptions, c10Scenarios)
+}
+
+// foldCancelled is the oracle of fork.Fold under a cancelled context over an unbuffered input (every completed send was received by a
+// worker): at most one value, equal to the sum of exactly the elements sent; result channel closed; no library goroutine left.
+func foldCancelled(tag string, c forkh.Cfg, o *obs.Obs) string {
+	got := o.Strs("got")
+	sent := 0
+	for _, e := range o.Logs["sent"] {
+		sent += e.Args[0].(int)
+	}
+	if len(got) > 1 {
+		return fmt.Sprintf("%s/cancel-value|fork.Fold delivered %d values under cancel: %v", tag, len(got), got)
+	}
+	if len(got) == 1 && c.InCap == 0 && got[0] != fmt.Sprint(sent) {
+		return fmt.Sprintf("%s/cancel-value|cancelled: fork.Fold(par=%d) took the elements %v from its unbuffered input (sum %d) and delivered %v: elements it had taken are missing from (or foreign to) the one value it delivers", tag, c.Par, o.Strs("sent"), sent, got)
+	}
+	if !o.Sim {
+		return ""
+	}
+	if !o.Has("in-closed") {
+		return fmt.Sprintf("%s/harness|producer did not close its input after cancel: %v", tag, o.EnvBlocked())
+	}
+	if lb := o.LibBlocked(); len(lb) > 0 {
+		return fmt.Sprintf("%s/cancel-leak|cancelled and input closed but library goroutines remain: %v", tag, lb)
+	}
+	for _, n := range o.NotClosed() {
+		return fmt.Sprintf("%s/cancel-not-closed|cancelled, library goroutines gone, but channel %q was never closed", tag, n)
+	}
+	return ""
 }
